@@ -75,3 +75,37 @@ pub assume_specification[ String::len ](s: &String) -> (r: usize)
 // std: `String::as_bytes` is the UTF-8 encoding.
 pub assume_specification[ String::as_bytes ](s: &String) -> (r: &[u8])
     ensures r@ == vstd::utf8::encode_utf8(s@);
+
+// std: `&s[1..]` when the first byte is ASCII (so that 1 is a char boundary): the bytes after the first.
+// (std panics iff 1 is not a char boundary; the precondition states the no-panic condition.)
+#[verifier::external_body]
+fn shim_str_tail1(s: &str) -> (r: &str)
+    requires s.spec_bytes().len() >= 1, s.spec_bytes()[0] < 0x80,
+    ensures r.spec_bytes() == s.spec_bytes().skip(1),
+{ &s[1..] }
+
+proof fn lemma_dot_bytes()
+    ensures ".".spec_bytes() == seq![0x2eu8], "..".spec_bytes() == seq![0x2eu8, 0x2eu8],
+{
+    reveal_strlit(".");
+    reveal_strlit("..");
+    vstd::utf8::is_ascii_chars_encode_utf8("."@);
+    vstd::utf8::is_ascii_chars_encode_utf8(".."@);
+    assert(".".spec_bytes() =~= seq![0x2eu8]);
+    assert("..".spec_bytes() =~= seq![0x2eu8, 0x2eu8]);
+}
+
+// std: `str::len` is the byte length (vstd's own spec clips it to usize; a str always fits).
+#[verifier::external_body]
+fn shim_str_len(s: &str) -> (r: usize)
+    ensures r as int == s.spec_bytes().len(),
+{ s.len() }
+
+proof fn lemma_slash_bytes()
+    ensures "/".spec_bytes() == seq![0x2fu8], vstd::utf8::encode_utf8(seq!['/']) == seq![0x2fu8],
+{
+    reveal_strlit("/");
+    vstd::utf8::is_ascii_chars_encode_utf8("/"@);
+    assert("/"@ =~= seq!['/']);
+    assert("/".spec_bytes() =~= seq![0x2fu8]);
+}
